@@ -9,7 +9,8 @@ Inductive k8s_case :=
 | KScale (del : bool) (set : string) (e : Z) (before : cluster) (after : cluster)
 | KScaleF (fails del : bool) (set : string) (e : Z) (before : cluster) (after : cluster) (err : bool)   (* the update call is made to fail *)
 | KShards (set : string) (port : Z) (pods : list pod) (observed : list shard_out)
-| KReplicas (l : list sts_status) (observed : list string).
+| KReplicas (l : list sts_status) (observed : list string)
+| KReplicasHist (calls : list (Z * list sts_status)) (observed : list (list string)).   (* several calls on one manager, time passing *)
 
 (* model and implementation agree on the observable *)
 Definition k8s_agree (c : k8s_case) : bool :=
@@ -19,6 +20,7 @@ Definition k8s_agree (c : k8s_case) : bool :=
     let (c', e') := change_scale_f fails del set e before in cluster_eqb c' after && Bool.eqb e' err
   | KShards set port pods obs => list_eqb shard_out_eqb (shards set port pods) obs
   | KReplicas l obs => list_eqb String.eqb (replicas_first_call l) obs
+  | KReplicasHist calls obs => list_eqb (list_eqb String.eqb) (replicas_hist 0 [] calls) obs
   end.
 
 (* the property itself (C18), evaluated on the implementation's observable *)
@@ -66,4 +68,7 @@ Definition k8s_prop_ok (c : k8s_case) : bool :=
     else scale_ok del set e b a && negb err
   | KShards set port pods obs => shards_ok set port pods obs
   | KReplicas l obs => replicas_ok l obs
+  | KReplicasHist calls obs =>
+    Nat.eqb (length calls) (length obs) &&
+    forallb (fun co => replicas_ok (snd (fst co)) (snd co)) (combine calls obs)
   end.
